@@ -24,7 +24,10 @@ _RULE = ("scenarios: 1-6 requests with random HPACK representation choices, HEAD
          "priority sections, DATA chunkings, trailers, interleavings, handler completion orders, buffered/streamed responses, "
          "WINDOW_UPDATE/SETTINGS/PING/PRIORITY sprinkles; one quarter with a message-level offence, one quarter with a frame-level "
          "offence (catalogue in harness/cmd/h2v/server_gen.go), 1 in 16 with the stream loop held at a tick gate while the read loop "
-         "runs ahead (optionally into a connection error), 1 in 50 with ~280 streams (closed-ring wrap, late frames); lockstep: after each event the harness waits for quiescence "
+         "runs ahead (optionally into a connection error), 1 in 50 with ~280 streams (closed-ring wrap, late frames), 1 in 16 with several "
+         "responses blocked on the connection window, 1 in 32 with the request timer running out (ReadTimeout 250 ms, requests in every stage, late "
+         "frames and handler returns afterwards), 1 in 64 with the idle timer closing the connection, endless header fields, floods behind a "
+         "connection error, content-length values around 2^63/2^64; lockstep: after each event the harness waits for quiescence "
          "(hook counters) and records frames, dispatches and gauges; non-trivial = the server sent HEADERS, RST_STREAM or GOAWAY")
 
 
